@@ -132,7 +132,7 @@ pub fn run(ctx: &mut Ctx) {
     crate::props::run_regressions(ctx, "C08");
 
     ctx.layer("exhaustive");
-    let dsets: Vec<DS> = dsets_up_to(2, t.pick(6, 7));
+    let dsets: Vec<DS> = dsets_up_to(2, t.pick(6, 8));
     let mut cases = vec![];
     let mut complete = true;
     for ds in &dsets {
@@ -145,16 +145,16 @@ pub fn run(ctx: &mut Ctx) {
             cases.push(OrbCase { sheets: if s.size <= 4 { 2 + k % 2 } else { 0 }, ds: s, swaps, pick: (k as u32).wrapping_mul(2654435761) });
         }
     }
-    let note = format!("all branching assignments v <= 8 on all {} connected 2D D-sets of size <= {}{}", dsets.len(), t.pick(6, 7), if complete { "" } else { " (capped per D-set)" });
+    let note = format!("all branching assignments v <= 8 on all {} connected 2D D-sets of size <= {}{}", dsets.len(), t.pick(6, 8), if complete { "" } else { " (capped per D-set)" });
     ctx.run_par(&SUB_ORB, cases, if complete { Some(&note) } else { None });
     if !complete {
         ctx.note(note);
     }
 
     ctx.layer("random");
-    let n = t.pick(40_000u32, 1_000_000u32);
+    let n = t.pick(40_000u32, 2_000_000u32);
     let sw = || prop::collection::vec((any::<u32>(), any::<u32>()), 0..8);
-    let pool = std::sync::Arc::new(dsets_up_to(2, t.pick(7, 8)));
+    let pool = std::sync::Arc::new(dsets_up_to(2, t.pick(7, 10)));
     {
         let pool = pool.clone();
         ctx.run_prop(&SUB_ORB, move || (pooled_symbol(pool.clone()), sw(), 0usize..=3, any::<u32>()).prop_map(|(ds, swaps, k, pick)| OrbCase { sheets: if ds.size <= 5 && k >= 2 { k } else { 0 }, ds, swaps, pick }), n);
